@@ -15,6 +15,13 @@ def fname(x):
 
 
 def run(prog, chk):
+    from ksirules import recycle
+    chk.rule("C13.recycle", "recycled request handles / transfer objects are re-initialised field by field before they are handed out", floor=25)
+    recycle.check(prog, chk, "C13.recycle", ["KSI_AbstractAsyncHandle_new", "CurlAsyncRequest_new"])
+    _run(prog, chk)
+
+
+def _run(prog, chk):
     chk.explanation = (
         "(R6) handleResponse is evaluated abstractly for: slot of the reply's id inside / outside the cache x slot occupied / empty x "
         "full 64-bit id equal / different (stale generation) x handle state x reply-vs-request verification x service status: the reply "
